@@ -90,6 +90,31 @@ def _replay_file(mod, path, kf):
     return rec, fails, inconclusive
 
 
+def _compact_sample(x, limit=900):
+    """evidence samples are for reading: arrays with more than `limit` entries are replaced by a description
+    (replay files of failures always hold the full case)"""
+    if isinstance(x, dict):
+        if "__nd__" in x:
+            try:
+                import numpy as _np
+                from . import canon
+                a = _np.array(canon.from_jsonable(x))
+                if a.size > limit:
+                    fin = a[_np.isfinite(a)] if a.dtype.kind == "f" else a
+                    return {"__nd_summary__": {"shape": list(a.shape), "dtype": str(a.dtype), "nonzero": int(_np.count_nonzero(a)),
+                                               "min": (float(fin.min()) if fin.size else None), "max": (float(fin.max()) if fin.size else None),
+                                               "symmetric": bool(a.ndim == 2 and a.shape[0] == a.shape[1] and _np.array_equal(a, a.T, equal_nan=(a.dtype.kind == "f")))}}
+            except Exception:
+                pass
+            return x
+        return {k: _compact_sample(v, limit) for k, v in x.items()}
+    if isinstance(x, list):
+        if len(x) > limit:
+            return {"__list_summary__": {"length": len(x), "head": [_compact_sample(v, limit) for v in x[:5]]}}
+        return [_compact_sample(v, limit) for v in x]
+    return x
+
+
 def main():
     repo = _bootstrap()
     from . import canon, core, kf as kfmod
@@ -255,7 +280,7 @@ def main():
             exhaustive_units[r["unit"]] = exhaustive_units.get(r["unit"], 0) + r["exh_total"]
         for s in r["samples"]:
             if sum(1 for x in samples if x["unit"] == r["unit"]) < 2:
-                samples.append({"unit": r["unit"], "case": s})
+                samples.append({"unit": r["unit"], "case": _compact_sample(s)})
         for f in r["failures"]:
             failures.setdefault((r["unit"], f["key"]), f)
     for pu in per_unit.values():
